@@ -31,7 +31,7 @@ def run_mutant(relfile: str, old: str, new: str, props, tier="quick", tests=Fals
         except SyntaxError as e:
             return {"error": f"mutant does not compile: {e}"}
         out = {}
-        env = dict(os.environ, ODATA_REPO=tmp, PYTHONPATH="/verif")
+        env = dict(os.environ, ODATA_REPO=tmp, PYTHONPATH="/verif", SA_EVIDENCE_DIR=os.path.join(tmp, "_evidence"))
         for p in props:
             r = subprocess.run(["/venv/bin/python", "-m", "sa.check", p, "--tier", tier], cwd="/verif", env=env,
                                capture_output=True, text=True)
@@ -48,8 +48,6 @@ def run_mutant(relfile: str, old: str, new: str, props, tier="quick", tests=Fals
         return out
     finally:
         shutil.rmtree(tmp, ignore_errors=True)
-        # the evidence files were rewritten by the mutant run: restore them from git
-        subprocess.run(["git", "checkout", "--", "evidence"], cwd="/verif", capture_output=True)
 
 
 def main(argv):
